@@ -18,7 +18,7 @@ fd = selftest.fixture_facts()
 P = F.Program(fd, inline=False)
 for i, b in P.bodies.items():
     crates.add(b.crate)
-    if "inl_helper" not in i:
+    if "inl_helper" not in i and not ("unk_closure" in i and "{closure" in i):
         ids.add(i)
 out = os.path.join(os.path.dirname(os.path.dirname(os.path.abspath(__file__))), "rules", "known_fns.txt")
 with open(out, "w") as f:
